@@ -442,6 +442,11 @@ SCRIPTS = [
     ("unwrap_assign_same_scalar_and_str",
      "a: int? = 5\nb: int? = 5\nprint a ?= b\nprint a\ns: str? = \"x\"\nu: str? = \"x\"\nprint s ?= u\nprint s\nn: int? = nil\nprint a ?= n\nprint a == nil\n",
      ["true", "5", "true", "x", "false", "true"]),
+    # round 8 (C12-17): a present optional compared with a plain value of ANOTHER numeric kind, both operand orders
+    ("present_optional_equals_value_across_kinds",
+     "big: bigint? = B4294967301\nsmall = 5\nprint big == small\nprint small == big\nprint big != small\nb5: bigint? = B5\nprint b5 == small\nprint small == b5\n"
+     "fo: float? = 5.0\nprint fo == small\nprint small == fo\nio: int? = 5\nbv = B5\nprint io == bv\nprint bv == io\nbw = B4294967301\nprint io == bw\nprint bw != io\n",
+     ["false", "false", "true", "true", "true", "true", "true", "true", "true", "false", "true"]),
     ("unwrap_assign_equal_but_distinct_map",
      "m1 = map[int, int] {\n 1: 1\n}\nm2 = map[int, int] {\n 1: 1\n}\ncur: map[int, int]? = m1\nfl = cur ?= m2\nc2 = get cur\nc2[2] = 2\nprint m1.len()\nprint m2.len()\n",
      ["1", "2"]),
